@@ -111,6 +111,9 @@ def generate(prop, rng):
         if rng.random() < 0.12:
             # one workspace file cannot be removed while the forced checkout runs (immutable / busy)
             cfg["ws_rm_fault"] = {"nth": rng.randint(1, 3), "exc": rng.choice(["EACCES", "EIO"])}
+        # round 7: between the idempotent second call and the relink, every cache object is replaced by a
+        # bytes-identical file with a new inode (collected and fetched again by somebody else)
+        cfg["recache"] = rng.random() < 0.35
         sc.update(prior=prior, target=target, edits=edits, kind="c10")
         return sc
     kind = gen.weighted(rng, [(5, "checkout"), (5, "links")])
@@ -700,6 +703,16 @@ def _exec_c10(sc, ctx, env):
         ctx.violate("second-checkout-not-noop", f"returned-{r2}:{disc}", f"returned {r2!r}")
     if muts and got == want:
         ctx.violate("second-checkout-mutated-workspace", disc, f"{[(e[2], e[3], e[4]) for e in muts[:4]]}")
+    if cfg.get("recache"):
+        cdir = env.w.p("cache")
+        for oid, data in sorted(env.cache_objs().items()):
+            cp = os.path.join(cdir, oid[:2], oid[2:])
+            if not os.path.isfile(cp):
+                continue
+            ctx.clock.advance(10**6)
+            env.w.raw_write(cp + ".refetch", data, mode=0o444)
+            REAL["os.rename"](cp + ".refetch", cp)  # both exist for an instant: the inode number is a new one
+        ctx.probe("cache_objects_replaced_by_identical_bytes_new_inode")
     # relink
     ctx.clock.advance(10**9)
     n_before = nsaved[0]
